@@ -992,16 +992,17 @@ func parseRaceLogs(prefix string) []raceReport {
 	return out
 }
 
+// isStdlib reports whether a frame is "neutral" for race attribution: the standard library / runtime and
+// third-party libraries (a racy access inside e.g. a back-off library is attributed to whoever called it:
+// the innermost frame that belongs to the repository or to the harness).
 func isStdlib(fn string) bool {
-	// a package path whose first element has no dot is the standard library / runtime
-	first := fn
-	if i := strings.Index(fn, "/"); i >= 0 {
-		first = fn[:i]
-	} else if i := strings.Index(fn, "."); i >= 0 {
-		first = fn[:i]
-		return first != "main"
+	if strings.HasPrefix(fn, "go.opentelemetry.io/collector/") {
+		return false // repository or harness (…/verifharness/…)
 	}
-	return !strings.Contains(first, ".")
+	if strings.HasPrefix(fn, "main.") {
+		return false // a check's main package
+	}
+	return true
 }
 
 func tailFile(p string, n int) string {
